@@ -11,14 +11,14 @@ from vlib import progspace as ps
 from vlib import chainspace as cs
 
 LEVEL = "exploration"
-ROUNDS = 12
+ROUNDS = 4
 RULE = ("Programs: every body of AST size <= S (core grammar + probe leaves) x {coroutine, generator, async generator, plain "
         "function} x every decision path; the points of a path are its suspensions and its probe calls (body, inside every "
         "enter/exit) in order; for EVERY subset of those points (all 2^n when n <= 6, otherwise all subsets of size <= 2 plus the "
         "full set; programs above the size stated in bounds.full_subsets_size: every single point and the full set) x repetition {1,3} x mode {trickery, referents} the program is re-run with extract() at exactly those points "
         "and must produce the same event log, yielded values and outcome as the unobserved twin; consecutive extractions of the "
         "unchanged target must compare equal; afterwards weakrefs to every manager, the target and its frame must be dead and "
-        "refcounts of value-stack objects unchanged by 12 extract-and-drop rounds. Chains: same for every chain spec of length "
+        "refcounts of value-stack objects unchanged by 4 extract-and-drop rounds. Chains: same for every chain spec of length "
         "<= N and every subset of its positions. A worker dying on a signal is a violation. evaluations = observed re-runs; "
         "distinct_nontrivial = distinct (program, kind, path) / chain specs with >= 1 observation point.")
 ASSUMPTIONS = ["n > 6 observation points: subsets of size <= 2 plus the full set (stated cap, fully enumerated below it)"]
@@ -28,7 +28,7 @@ def params(tier):
     # programs of AST size <= full_subsets_size get ALL subsets of observation points; larger ones get every
     # single point and the full set
     if tier == "quick":
-        return {"size": 3, "depth": 3, "chain_links": 2, "full_subsets_size": 2}
+        return {"size": 3, "depth": 3, "chain_links": 1, "full_subsets_size": 2}
     return {"size": 4, "depth": 3, "chain_links": 3, "full_subsets_size": 3}
 
 
@@ -55,9 +55,13 @@ class CountingObserver(object):
     """Numbers observation points (suspensions + probes) in order; extracts at the chosen ones."""
     wants_probe = True
 
-    def __init__(self, chosen, rep, refcount_check=False):
+    def __init__(self, chosen, rep, refcount_check=False, liveness=False):
         self.chosen = chosen
         self.rep = rep
+        self.seen = {}       # point -> what the extraction at that point reported for the target's own frame
+        self.alive = {}      # point -> indices of managers that have exited but are still alive at that point
+        self.liveness = liveness
+        self.base_alive = None   # the unobserved twin's answer, when known (saves collector runs)
         self.npoints = 0
         self.problems = []
         self.nextract = 0
@@ -77,6 +81,23 @@ class CountingObserver(object):
         self.nextract += self.rep
         return prev
 
+    def _summary(self, st, k):
+        for f in st.frames:
+            if f.pyframe.f_code.co_name == "prog":
+                self.seen[k] = tuple((repr(c.obj), c.is_async, c.is_exiting) for c in f.contexts)
+                return
+
+    def _liveness(self, rt, k):
+        if not self.liveness:
+            return
+        wrs = getattr(rt, "exited_wr", ())
+        now = tuple(idx for w, idx in wrs if w() is not None)
+        ref = None if self.base_alive is None else self.base_alive.get(k, ())
+        if now and (ref is None or any(i not in ref for i in now)):
+            gc.collect()   # only cyclic garbage needs the collector; anything still alive afterwards is really referenced
+            now = tuple(idx for w, idx in wrs if w() is not None)
+        self.alive[k] = now
+
     def _refcounts(self, frame, fn, arg):
         from stackscope import lowlevel
         try:
@@ -84,15 +105,23 @@ class CountingObserver(object):
         except Exception:
             return
         objs = [o for o in objs if o is not None]
-        gc.collect()
-        before = [sys.getrefcount(o) for o in objs]
-        for _ in range(ROUNDS):
-            with warnings.catch_warnings():
-                warnings.simplefilter("ignore")
-                st = fn(arg)
-            del st
-        gc.collect()
-        after = [sys.getrefcount(o) for o in objs]
+
+        def measure(collect):
+            if collect:
+                gc.collect()
+            b = [sys.getrefcount(o) for o in objs]
+            for _ in range(ROUNDS):
+                with warnings.catch_warnings():
+                    warnings.simplefilter("ignore")
+                    st = fn(arg)
+                del st
+            if collect:
+                gc.collect()
+            return b, [sys.getrefcount(o) for o in objs]
+        before, after = measure(False)
+        if before != after:
+            # cyclic garbage may be involved: repeat with the collector run before the baseline and after the rounds
+            before, after = measure(True)
         if before != after:
             self.problems.append("refcounts of value-stack objects changed after %d extract-and-drop rounds: %r -> %r (%r)" % (
                 ROUNDS, before, after, [type(o).__name__ for o in objs]))
@@ -108,7 +137,8 @@ class CountingObserver(object):
                 fr = getattr(target, "cr_frame", None) or getattr(target, "gi_frame", None) or getattr(target, "ag_frame", None)
                 if fr is not None:
                     self._refcounts(fr, stackscope.extract, target)
-            self._extract(stackscope.extract, target, "suspended@%d" % k)
+            self._summary(self._extract(stackscope.extract, target, "suspended@%d" % k), k)
+        self._liveness(rt, k)
 
     def on_probe(self, rt, where, progframe, caller):
         import stackscope
@@ -117,7 +147,8 @@ class CountingObserver(object):
         if k in self.chosen:
             if self.refcount_check:
                 self._refcounts(progframe, stackscope.extract_since, progframe)
-            self._extract(stackscope.extract_since, progframe, "running@%d" % k)
+            self._summary(self._extract(stackscope.extract_since, progframe, "running@%d" % k), k)
+        self._liveness(rt, k)
 
 
 def subsets(n, full=True):
@@ -147,11 +178,21 @@ class TrackM(ps.M):
         ps.M.__init__(s, rt, i)
         rt.wrs.append(weakref.ref(s))
 
+    def __exit__(s, *exc):
+        r = ps.M.__exit__(s, *exc)
+        s.rt.exited_wr.append((weakref.ref(s), s.i))
+        return r
+
 
 class TrackAM(ps.AM):
     def __init__(s, rt, i):
         ps.AM.__init__(s, rt, i)
         rt.wrs.append(weakref.ref(s))
+
+    async def __aexit__(s, *exc):
+        r = await ps.AM.__aexit__(s, *exc)
+        s.rt.exited_wr.append((weakref.ref(s), s.i))
+        return r
 
 
 _BaseRt = ps.Rt
@@ -161,6 +202,7 @@ class TRt(_BaseRt):
     def __init__(self, prefix, observer=None):
         _BaseRt.__init__(self, prefix, observer)
         self.wrs = []
+        self.exited_wr = []
 
 
 def run_once(fn, kind, prefix, obs):
@@ -190,9 +232,11 @@ def check_path(src, kind, prefix, ctx, case_base, do_refcount, full=True, combos
     """Returns number of observed runs."""
     from stackscope import lowlevel
     fn = compile_tracked(src)
-    base_obs = CountingObserver(frozenset(), 1)
+    base_obs = CountingObserver(frozenset(), 1, liveness=True)
     base, wrs0 = run_once(fn, kind, prefix, base_obs)
     npts = base_obs.npoints
+    base_alive = dict(base_obs.alive)
+    alone = {}   # (mode, point) -> summary seen when only that point is probed
     gc.collect()
     alive0 = [w for w in wrs0 if w() is not None]
     if alive0:
@@ -208,10 +252,27 @@ def check_path(src, kind, prefix, ctx, case_base, do_refcount, full=True, combos
         lowlevel.set_trickery_enabled(mode)
         for sub in subsets(npts, full):
             if True:
-                obs = CountingObserver(sub, rep, refcount_check=(do_refcount and rep == 1 and len(sub) == npts))
+                is_full = len(sub) == npts
+                obs = CountingObserver(sub, rep, refcount_check=(do_refcount and rep == 1 and is_full),
+                                       liveness=(rep == 1 and is_full))
+                obs.base_alive = base_alive
                 got, wrs = run_once(fn, kind, prefix, obs)
                 nruns += 1
                 problems = list(obs.problems)
+                # history independence: what a probe sees must not depend on which other points were probed
+                if len(sub) == 1:
+                    (k0,) = tuple(sub)
+                    alone.setdefault((mode, k0), obs.seen.get(k0))
+                else:
+                    for k0, summ in obs.seen.items():
+                        ref = alone.get((mode, k0))
+                        if ref is not None and summ != ref:
+                            problems.append("point %d reports %r when other points were probed too, but %r when probed alone" % (k0, summ, ref))
+                # retention while the target is still alive: a manager that has exited must be as collectable as in the unobserved twin
+                for k0, alive_now in obs.alive.items():
+                    extra = [i for i in alive_now if i not in base_alive.get(k0, ())]
+                    if extra:
+                        problems.append("after earlier extractions, exited managers %r are still alive at point %d (collected there in the unobserved twin)" % (extra, k0))
                 if got != base:
                     problems.append("behaviour differs from the unobserved twin: observed %r vs unobserved %r" % (got, base))
                 obs.wr = []
@@ -375,20 +436,24 @@ def replay(case):
         if alive:
             problems.append("objects still alive: %r" % (alive,))
         return [{"detail": p} for p in problems]
-    fn = compile_tracked(case["src"])
-    base_obs = CountingObserver(frozenset(), 1)
-    base, wrs0 = run_once(fn, case["kind"], tuple(case["prefix"]), base_obs)
-    lowlevel.set_trickery_enabled(case["mode"])
-    sub = frozenset(case["subset"])
-    obs = CountingObserver(sub, case["rep"], refcount_check=(case["rep"] == 1 and len(sub) == base_obs.npoints))
-    got, wrs = run_once(fn, case["kind"], tuple(case["prefix"]), obs)
-    problems = list(obs.problems)
-    if got != base:
-        problems.append("behaviour differs from the unobserved twin: observed %r vs unobserved %r" % (got, base))
-    obs.wr = []
-    del obs
-    gc.collect()
-    alive = [type(w()).__name__ for w in wrs if w() is not None]
-    if alive:
-        problems.append("objects still alive after dropping all results: %r" % (alive,))
-    return [{"detail": p} for p in problems]
+    class Collect(object):
+        def __init__(s):
+            s.v = []
+
+        def count(s, *a):
+            pass
+
+        def distinct(s, *a):
+            pass
+
+        def violation(s, c, detail, sig):
+            if c.get("subset") == case.get("subset") and c.get("rep") == case.get("rep") and c.get("mode") == case.get("mode"):
+                s.v.append({"detail": detail})
+    col = Collect()
+    big = len(case.get("subset", [])) > 0
+    # re-run the whole path (all subsets) so that the differential oracles have their references
+    for full in (True, False):
+        check_path(case["src"], case["kind"], tuple(case["prefix"]), col, {"leg": "prog"}, do_refcount=True, full=full)
+        if col.v:
+            break
+    return col.v
